@@ -476,11 +476,12 @@ class DynDiGraph(nx.DiGraph):
 
         for n, nbrs in nodes_nbrs_succ:
             for nbr in nbrs:
+                # a reciprocal pair is listed once, in the direction met first
                 if t is not None:
-                    if nbr not in seen and self.__presence_test(n, nbr, t):
+                    if self.__presence_test(n, nbr, t) and not (nbr in seen and self.__presence_test(nbr, n, t)):
                         yield n, nbr, {"t": [t]}
                 else:
-                    if nbr not in seen:
+                    if not (nbr in seen and n in self._succ[nbr]):
                         yield n, nbr, self._succ[n][nbr]
             seen[n] = 1
 
